@@ -1168,6 +1168,53 @@ fn conc_mode(inputs: &[Value], seed: u64, si: usize, sn: usize, out: &mut TraceO
                 }
                 drop(kv);
             }
+            // A set / delete of an existing key meets an I/O error, and the writer is HELD at the failing call while
+            // another thread reads the key: whatever the failing operation does to the index before it knows whether it
+            // will succeed must not be visible - a get during it and the gets after it tell one story (a key that is
+            // gone during a delete that then fails, and back afterwards, has no order of operations that explains it)
+            "forced-fault-vs-get" => {
+                let op = inp["op"].as_str().unwrap_or("del").to_string();
+                let nth = inp["nth"].as_u64().unwrap_or(0);
+                let cfg = inp["config"].clone();
+                shim::start(&dir, false);
+                let kv = make_config(&dir, &cfg).open().expect("open");
+                let h = kv.get_handle();
+                let _ = h.set(Bytes::from_static(b"other"), Bytes::from_static(b"o"));
+                let _ = h.set(Bytes::from_static(b"k"), Bytes::from_static(b"v1"));
+                let pre = get_res(&h, b"k");
+                let seen = shim::mutating_seen();
+                shim::pause_at(seen + nth);
+                shim::fail_at(seen + nth, libc::EIO);
+                let h2 = h.clone();
+                let op2 = op.clone();
+                let w = std::thread::spawn(move || {
+                    if op2 == "del" {
+                        match std::panic::catch_unwind(std::panic::AssertUnwindSafe(|| h2.del(Bytes::from_static(b"k")))) {
+                            Ok(Ok(b)) => format!("ok:{b}"),
+                            Ok(Err(e)) => format!("err:{e}"),
+                            Err(_) => "panic".into(),
+                        }
+                    } else {
+                        res_str(std::panic::catch_unwind(std::panic::AssertUnwindSafe(|| h2.set(Bytes::from_static(b"k"), Bytes::from_static(b"v2")))))
+                    }
+                });
+                let paused = shim::wait_paused(Duration::from_secs(3));
+                let h3 = h.clone();
+                let during = with_watchdog(move || get_res(&h3, b"k"), Duration::from_millis(500));
+                let h3 = h.clone();
+                let during_other = with_watchdog(move || get_res(&h3, b"other"), Duration::from_millis(500));
+                shim::release();
+                let opres = w.join().unwrap_or_else(|_| "panic".into());
+                let mut after = vec![];
+                for _ in 0..3 {
+                    let h3 = h.clone();
+                    after.push(json!(with_watchdog(move || get_res(&h3, b"k"), Duration::from_secs(3))));
+                }
+                shim::stop();
+                out.emit(&json!({"ev": "conc", "kind": kind, "input": inp, "paused": paused, "pre": pre, "op_result": opres,
+                                 "during": during, "during_other": during_other, "after": after}));
+                drop(kv);
+            }
             "forced-merge-vs-get" => {
                 let cfg = json!({"concurrency": 1, "max_file_size": 60,
                                  "merge": {"thresholds": {"fragmentation": 0.0, "dead_bytes": 0, "small_file": 1_000_000}}});
